@@ -18,6 +18,9 @@ import "reflect"
 
 // CopyTo 复制结构体, 纯递归实现. src 和 dst 都必须是结构体的指针
 func CopyTo(src any, dst any) error {
+	if src == nil || dst == nil {
+		return errNilPointer
+	}
 	srcPtrTyp := reflect.TypeOf(src)
 	if srcPtrTyp.Kind() != reflect.Pointer {
 		return newErrTypeError(srcPtrTyp)
@@ -35,6 +38,9 @@ func CopyTo(src any, dst any) error {
 		return newErrTypeError(dstTyp)
 	}
 
+	if reflect.ValueOf(src).IsNil() || reflect.ValueOf(dst).IsNil() {
+		return errNilPointer
+	}
 	srcValue := reflect.ValueOf(src).Elem()
 	dstValue := reflect.ValueOf(dst).Elem()
 
